@@ -422,8 +422,12 @@ def reset_between_runs():
     # for real once the seams are gone; give those finalizers a clock that does not wait
     for m in _TIME_MODS:
         m.time = _NOSLEEP
+    # (workload generators whose clean-up code fails on purpose are finalised here: unraisable, keep stderr clean)
+    hook_was = sys.unraisablehook
+    sys.unraisablehook = lambda *a: None
     try:
         gc.collect()
     finally:
+        sys.unraisablehook = hook_was
         for m in _TIME_MODS:
             m.time = _time
